@@ -97,6 +97,7 @@ def _v_sum10(cfg, value):
     return value
 
 
+_GETTERS = {"n": lambda cfg: cfg.n, "newdict": lambda cfg: {"made": 1}}
 FIELD_VALIDATORS = {"even": _v_even, "sorted": _v_sorted, "max2": _v_max2, "has-a": _v_has_a, "sum<=10": _v_sum10}
 SCHEMA_VALIDATORS = {"x<=y": _sv_x_le_y}
 _CLASSES = {"string": "StringField", "int": "IntField", "float": "FloatField", "port": "PortField",
@@ -140,6 +141,8 @@ class Built:
             return sch
         if t == "ctype":
             return self.cc.make_type(self.field(fs["schema"]), fs["name"], module=__name__)
+        if t == "virtual":
+            return self.cc.VirtualField(_GETTERS[fs["getter"]])
         kw = {k: dec(v, self.tmp) for k, v in fs.items() if k not in _RESERVED}
         if "default" in fs:
             d = fs["default"]
@@ -927,6 +930,101 @@ def check_whole(setup, op, watch, tmp):
     return "ok", type(exc).__name__
 
 
+_LIM = {"t": "dict", "kf": {"t": "string", "max_len": 4}, "vf": {"t": "int", "min": 0, "max": 100}}
+_TAGS = {"t": "dict", "kf": {"t": "string", "regex": "^[a-z]+$"}, "vf": {"t": "string", "max_len": 3}}
+DOTTED = {"root": {"t": "schema", "fields": [
+    ["limits", dict(_LIM)],                                         # holds None
+    ["lim0", dict(_LIM, default=_c({}))],                           # holds {}
+    ["lim1", dict(_LIM, default=_c({"cpu": 1, "mem": 2}))],         # holds a non-empty dict
+    ["tags", dict(_TAGS, default=_c({"env": "dev"}))],
+    ["n", {"t": "int", "max": 9, "default": _c(1)}], ["s", {"t": "string", "default": _c("str")}], ["none_s", {"t": "string"}],
+    ["li", {"t": "list", "item": {"t": "int", "min": 0}, "default": _c([1, 2])}],
+    ["virt", {"t": "virtual", "getter": "n"}], ["vdict", {"t": "virtual", "getter": "newdict"}],
+    ["app", {"t": "schema", "fields": [
+        ["limits", dict(_LIM)], ["lim1", dict(_LIM, default=_c({"cpu": 3}))], ["tags", dict(_TAGS, default=_c({}))],
+        ["m", {"t": "int", "default": _c(2)}],
+        ["deep", {"t": "schema", "fields": [["lim1", dict(_LIM, default=_c({"io": 4}))], ["limits", dict(_LIM)]]}]]}],
+    ["dyn", {"t": "schema", "dynamic": True, "fields": [["k", {"t": "int", "default": _c(0)}]]}]]}}
+
+
+def dotted_cases():
+    """(state name, setup, witness_key, op): dotted-path / item-syntax assignments whose path reaches INTO a container
+    field or a missing level; every one that the library rejects must leave the configuration unchanged"""
+    assigned = [{"op": "setattr", "nav": [], "key": "limits", "value": {"cpu": 5}},
+                {"op": "setattr", "nav": [], "key": "lim0", "value": {"a": 1}},
+                {"op": "setattr", "nav": ["app"], "key": "limits", "value": {"b": 2}},
+                {"op": "setattr", "nav": ["app", "deep"], "key": "limits", "value": {"c": 3}}]
+    resets = [{"op": "reset", "nav": [], "key": "limits"}, {"op": "reset", "nav": [], "key": "lim0"},
+              {"op": "reset", "nav": [], "key": "lim1"}, {"op": "reset", "nav": ["app"], "key": "limits"},
+              {"op": "reset", "nav": ["app", "deep"], "key": "limits"}]
+    inplace = [{"op": "mut", "nav": ["lim0"], "meth": "setitem", "args": ["x", 1]},
+               {"op": "mut", "nav": ["app", "tags"], "meth": "setitem", "args": ["k", "v"]}]
+    # container state of every dict field per history
+    held = {
+        "default": {"limits": "none", "lim0": "empty", "lim1": "non-empty", "tags": "non-empty", "app.limits": "none",
+                    "app.lim1": "non-empty", "app.tags": "empty", "app.deep.lim1": "non-empty", "app.deep.limits": "none"},
+        "assigned": {"limits": "assigned-non-empty", "lim0": "assigned-non-empty", "app.limits": "assigned-non-empty",
+                     "app.deep.limits": "assigned-non-empty", "lim1": "non-empty"},
+        "after-reset": {"limits": "none-after-reset", "lim0": "empty-after-reset", "lim1": "non-empty-after-reset",
+                        "app.limits": "none-after-reset", "app.deep.limits": "none-after-reset"},
+        "in-place": {"lim0": "mutated-in-place", "app.tags": "mutated-in-place"},
+    }
+    setups = {"default": [], "assigned": assigned, "after-reset": assigned + resets, "in-place": inplace}
+    for sname, fields in held.items():
+        setup = setups[sname]
+        for path, cstate in fields.items():
+            is_tags = path.endswith("tags")
+            elements = [("key-field", "UP" if is_tags else "toolong", "ok" if is_tags else 5),
+                        ("key-field:dotted-key", "cpu.x", "ok" if is_tags else 5),
+                        ("key-field:type", 7, "ok" if is_tags else 5),
+                        ("value-field", "ok" if is_tags else "cpu", "toolong" if is_tags else 101),
+                        ("value-field:min-1", "ok" if is_tags else "cpu", 5 if is_tags else -1),
+                        ("value-field:type", "ok" if is_tags else "cpu", [1]),
+                        ("valid-element", "ok" if is_tags else "cpu", "v" if is_tags else 7)]
+            for what, key, value in elements:
+                if not isinstance(key, str):
+                    continue  # a non-string key cannot be written as a path component
+                wk = "dotted-into-container:%s/%s" % (cstate, what)
+                yield sname, setup, wk, {"op": "setitem", "path": path + "." + key, "value": enc(value)}
+                parts = path.split(".")
+                if len(parts) > 1:  # item syntax on the owning sub-configuration and on the one in between
+                    yield sname, setup, wk, {"op": "setitem-on", "nav": parts[:-1], "key": parts[-1] + "." + key, "value": enc(value)}
+                    if len(parts) > 2:
+                        yield sname, setup, wk, {"op": "setitem-on", "nav": parts[:1], "key": ".".join(parts[1:]) + "." + key,
+                                                 "value": enc(value)}
+    # ---- first / middle component is None, a scalar, a list, an undeclared name, a virtual field
+    others = [
+        ("none-scalar/not-a-container", "none_s.x", 1), ("scalar:int/not-a-container", "n.x", 1),
+        ("scalar:str/not-a-container", "s.x", 1), ("scalar:str/not-a-container", "s.0", "z"),
+        ("list/str-index-valid-item", "li.0", 5), ("list/str-index-invalid-item", "li.0", -1),
+        ("list/str-index-invalid-item", "li.x", "bad"), ("list/deeper", "li.0.x", 5),
+        ("undeclared/first", "nope.x", 1), ("undeclared/first", "nope.x.y", 1), ("undeclared/middle", "app.nope.x", 1),
+        ("undeclared/leaf", "app.nope", 1), ("undeclared/leaf", "app.deep.nope", 1),
+        ("scalar:int/middle", "app.m.x", 1), ("scalar:int/middle", "app.m.x.y", 1),
+        ("none-container/middle", "app.limits.cpu.x", 1), ("none-container/middle", "app.deep.limits.a", 1),
+        ("virtual/scalar-getter", "virt.x", 1), ("virtual/dict-getter", "vdict.x", 1), ("virtual/readonly-leaf", "virt", 3),
+        ("dynamic/undeclared-middle", "dyn.new.x", 1), ("dynamic/scalar-middle", "dyn.k.x", 1),
+        ("dynamic/undeclared-leaf(control)", "dyn.fresh", 1),
+        ("subconfig/leaf-not-a-map", "app.deep", 5), ("subconfig/leaf-bad-map", "app.deep", {"lim1": {"toolong": 1}}),
+        # ---- empty components
+        ("empty-component/a..b", "app..m", 1), ("empty-component/a..b", "app..limits.cpu", 1), ("empty-component/a..b", "lim1..cpu", 1),
+        ("empty-component/.a", ".n", 1), ("empty-component/.a", ".app.m", 1), ("empty-component/.a", ".lim1.cpu", 1),
+        ("empty-component/a.:rejected-value", "n.", "bad"), ("empty-component/a.:rejected-value", "n.", 10),
+        ("empty-component/a.:rejected-value", "app.", 5), ("empty-component/a.:rejected-value", "limits.", {"toolong": 1}),
+        ("empty-component/a.:rejected-value", "app.limits.", 5), ("empty-component/a.:rejected-value", "lim1.", {"cpu": -1}),
+        ("empty-component/a.:accepted(control)", "n.", 5),
+        ("empty-component/empty-path", "", 1), ("empty-component/empty-path", ".", 1), ("empty-component/empty-path", "..", 1),
+        ("empty-component/empty-path", "app..", 1), ("empty-component/dynamic", "dyn..k", 1), ("empty-component/dynamic", "dyn.", 5),
+    ]
+    for sname in ("default", "assigned", "after-reset"):
+        for what, path, value in others:
+            wk = "dotted-into-container:" + what
+            yield sname, setups[sname], wk, {"op": "setitem", "path": path, "value": enc(value)}
+            head, _, rest = path.partition(".")
+            if head in ("app", "dyn") and rest:
+                yield sname, setups[sname], wk, {"op": "setitem-on", "nav": [head], "key": rest, "value": enc(value)}
+
+
 def load_ops(bt, top):
     """failing document loads: (obligation, witness_key, op, scope) with scope 'parse' | 'include'"""
     ob = "core:Config.loads/raise:C06.state-unchanged"
@@ -1081,7 +1179,11 @@ def rac(tier, seed):
              "rejecting the value as a whole - sorted / at most 2 / has key 'a' / sum <= 10 - while the configuration "
              "holds a non-empty value from default | assignment | load_tree; value given as list, tuple, proxy of "
              "another configuration, own proxy after in-place mutation, list with a held item; op = attribute, dotted "
-             "path, item syntax, load_tree with only that key, sub-map; also checks the reference the user kept); a case is "
+             "path, item syntax, load_tree with only that key, sub-map; also checks the reference the user kept); plus dotted-"
+             "into-container cases (dotted / item-syntax paths that reach into a typed DictField holding None | {} | a "
+             "non-empty dict | after assignment | after reset_value | after in-place mutation, top level and nested "
+             "1-2 levels, element rejected by the key or the value field; paths through None / scalar / list / "
+             "undeclared / virtual / dynamic components; paths with empty components), any exception counts; a case is "
              "non-trivial iff the real operation raised in one of the listed ways; distinct = (schema, state, witness "
              "class, op)",
         bound="depth <= 3 (+ list items), <= 2 items per list explored, value pools: min-1/max+1/len+-1/wrong type/"
@@ -1121,6 +1223,17 @@ def rac(tier, seed):
                 if status == "fail":
                     rec.violation(obligation=ob, what="[%s] %s" % (sname, detail), witness_key=wk,
                                   replay=_replay_dict(name, top, setup, op, "assign"))
+        sub = os.path.join(tmp, "enum-dotted")
+        os.makedirs(sub)
+        for sname, setup, wk, op in dotted_cases():
+            status, detail = check(DOTTED, setup, op, "any", sub, populate=False)
+            rec.case(key=("dotted", sname, wk, json.dumps(op, sort_keys=True)), nontrivial=status != "skip",
+                     sample={"schema": "dotted-into-container", "state": sname, "witness": wk, "op": op, "result": status}
+                     if (sname, wk) == ("default", "dotted-into-container:none/value-field") else None)
+            if status == "fail":
+                ob = "core:Config.__setitem__/raise:C06.state-unchanged"
+                rec.violation(obligation=ob, what="[%s] %s" % (sname, detail), witness_key=wk,
+                              replay=_replay_dict("dotted-into-container", DOTTED, setup, op, "any"))
         sub = os.path.join(tmp, "enum-whole")
         os.makedirs(sub)
         for how, setup, ob, wk, variant, op, watch in whole_cases():
